@@ -46,7 +46,7 @@ class MsgSequencer(Logic):
         ret = ''
         ret += 'reg state = 0;\n'
         mlen = len(self.msg)
-        wcount = int(math.ceil(math.log2(mlen)))
+        wcount = max(1, int(math.ceil(math.log2(mlen))))  # a one character message still needs a 1 bit counter
         ret += f'reg [{wcount-1}:0] count = 0;\n'
         ret += 'reg rvalid = 0;\n'
         ret += 'reg [7:0] rv = 0;\n'
